@@ -75,10 +75,10 @@ class ObsMixin(object):
     def _log(self, *entry):
         self.simulation.obslog.append(entry)
 
-    def attach_server(self, server, individual):
+    def attach_server(self, server, individual, *args, **kwargs):
         cands = [(i.id_number, i.priority_class, i, _interrupted_waiting(self, i)) for i in customers(self) if not live(self, i)]
         restart = individual in self.interrupted_individuals
-        super().attach_server(server, individual)
+        super().attach_server(server, individual, *args, **kwargs)
         self._log("attach", self.now, self.id_number, individual, server, cands, restart)
 
     def next_node(self, ind):
@@ -103,11 +103,11 @@ class ObsMixin(object):
         self._log("route", self.now, self.id_number, ind, ind.customer_class, nn.id_number, snap, route_before, "jockey")
         return nn
 
-    def preempt(self, individual_to_preempt, next_individual):
+    def preempt(self, individual_to_preempt, next_individual, *args, **kwargs):
         insvc = [(i.id_number, i.priority_class, i.service_start_date) for i in in_service(self)]
         was_blocked = bool(individual_to_preempt.is_blocked)
         srv = individual_to_preempt.server
-        super().preempt(individual_to_preempt, next_individual)
+        super().preempt(individual_to_preempt, next_individual, *args, **kwargs)
         self._log("preempt", self.now, self.id_number, individual_to_preempt, next_individual, insvc, was_blocked, srv)
 
     def change_customer_class(self, individual):
@@ -122,14 +122,14 @@ class ObsMixin(object):
         super().change_customer_class_while_waiting()
         self._log("cc_wait", self.now, self.id_number, ind, before, ind.customer_class, was_live)
 
-    def block_individual(self, individual, next_node):
+    def block_individual(self, individual, next_node, *args, **kwargs):
         pop = len(customers(next_node))
-        super().block_individual(individual, next_node)
+        super().block_individual(individual, next_node, *args, **kwargs)
         self._log("block", self.now, self.id_number, individual, next_node.id_number, pop)
 
-    def interrupt_service(self, individual):
+    def interrupt_service(self, individual, *args, **kwargs):
         was_blocked = bool(individual.is_blocked)
-        super().interrupt_service(individual)
+        super().interrupt_service(individual, *args, **kwargs)
         self._log("interrupt", self.now, self.id_number, individual, was_blocked)
 
 
@@ -181,16 +181,17 @@ class ObsArrivalMixin(object):
         super().have_event()
         Q.obslog.append(("arrival_event", t, nd, cl, self.number_of_individuals - before, date))
 
-    def release_individual(self, next_node, next_individual):
+    def release_individual(self, next_node, next_individual, *args, **kwargs):
         Q = self.simulation
         pop_node = len(customers(next_node))
         pop_sys = sum(len(customers(n)) for n in Q.transitive_nodes)
         created_as = next_individual.customer_class
-        super().release_individual(next_node, next_individual)
+        ret = super().release_individual(next_node, next_individual, *args, **kwargs)
         at_exit = any(x is next_individual for x in Q.nodes[-1].all_individuals[-1:])
         rec = next_individual.data_records[-1] if next_individual.data_records else None
         Q.obslog.append(("admission", Q.current_time, next_node.id_number, next_individual, pop_node, pop_sys,
                          at_exit, rec.record_type if (at_exit and rec is not None) else None, created_as))
+        return ret
 
 
 class ObsArrivalNode(ObsArrivalMixin, ciw.ArrivalNode):
